@@ -1,13 +1,13 @@
 #!/usr/bin/env python3
 """Hand-corruption self-test of Trace_HttpRelay (not a registered check).
-usage: python3 selftest/C01-http/corrupt_trace.py [.work/C91/httprelay.ndjson]
+usage: python3 selftest/C01-http/corrupt_trace.py [.work/C01/httprelay.ndjson]
 Takes a trace recorded from the unchanged tree, corrupts ONE recorded field in four different ways and shows
-that TLC raises the corresponding alarm each time (and only the known F12 shapes on the untouched trace)."""
+that TLC raises the corresponding alarm each time (the untouched trace raises none)."""
 import json, os, sys
 sys.path.insert(0, os.path.join(os.path.dirname(os.path.abspath(__file__)), "..", "..", "tools"))
 import core
 
-src = sys.argv[1] if len(sys.argv) > 1 else os.path.join(core.WORK, "C91", "httprelay.ndjson")
+src = sys.argv[1] if len(sys.argv) > 1 else os.path.join(core.WORK, "C01", "httprelay.ndjson")
 lines = [json.loads(l) for l in open(src)]
 
 
@@ -29,7 +29,7 @@ cases = {
 }
 rc = 0
 for name, (i, mut, want) in cases.items():
-    ctx = core.Ctx("C91-corrupt", "quick", 1)
+    ctx = core.Ctx("C01-httpcorrupt", "quick", 1)
     cp = [json.loads(json.dumps(e)) for e in lines]
     mut(cp[i])
     p = os.path.join(ctx.work, name + ".ndjson")
